@@ -8,7 +8,7 @@ rsync -a --exclude .git --exclude examples --exclude doc /repo/ $SCR/
 (cd $SCR && patch -s -p1 < $PATCH) || { echo "patch failed"; rm -rf $SCR $OUT; exit 3; }
 rc=0
 for P in "$@"; do
-  HVC_REPO=$SCR HVC_OUT=$OUT /verif/bin/hvc check $P 2>&1 | grep -E "VIOLATION|KNOWN|broken|discharged" | cut -c1-260
+  HVC_REPO=$SCR HVC_OUT=$OUT ${HVC_BIN:-/verif/bin/hvc} check $P 2>&1 | grep -E "VIOLATION|KNOWN|broken|discharged" | cut -c1-260
   [ ${PIPESTATUS[0]} -ne 0 ] && rc=1
 done
 rm -rf $SCR $OUT
